@@ -1,6 +1,7 @@
 package checks
 
 import (
+	"strings"
 	"fmt"
 	"image"
 	"os"
@@ -109,6 +110,9 @@ func runC01(c *ev.Ctx) {
 			{Class: "tiles", Alpha: "binary", Type: "NRGBA", W: 1000, H: 700, Method: 6, Quality: 100},
 			{Class: "noise", Alpha: "noise", Type: "NRGBA", W: 777, H: 513, Method: 3, Quality: 60, Exact: true},
 			{Class: "pal256", Alpha: "levels3", Type: "NRGBA", W: 900, H: 900, Method: 5, Quality: 80},
+			// incompressible RGBA of 8300x8300: the lossless output exceeds the 256 MiB the decoding entry points accept;
+			// Encode has to refuse (counted) rather than write a file Decode refuses (about 2 minutes, 6 GB)
+			{Class: "noise", Alpha: "noise", Type: "NRGBA", W: 8300, H: 8300, Method: 0, Quality: 0, Exact: true},
 		}
 		for _, e := range extra {
 			cases = append(cases, ev.Case{Idx: len(cases), Desc: fmt.Sprintf("%+v", e), Data: e})
@@ -144,6 +148,13 @@ func c01One(c *ev.Ctx, cs ev.Case, lwOK bool) {
 	}
 	data, err := encode(src, o)
 	c.Eval(1)
+	if err != nil && cc.W*cc.H > 60000000 && strings.Contains(err.Error(), "too large") {
+		// more than 256 MiB of output: refusing is the only right answer (Decode would refuse the file)
+		c.Count("huge_output_refused_by_encode", 1)
+		c.Eval(1)
+		c.Distinct("huge-output-refused")
+		return
+	}
 	if err != nil {
 		c.Violate(cs, "encode-error", map[string]string{"type": cc.Type}, "lossless Encode of a legal image/options returned: "+err.Error(), nil)
 		return
